@@ -24,6 +24,7 @@ package main
 //   composites (context of use) : tls.DigitalSignature, tls.ServerKeyExchange,
 //     tls.ClientKeyExchange, tls.ServerHello, tls.ClientHello
 //   adjacent, information only : x509.CertificateType, x509.ExtendedKeyUsageExtension
+//   values produced by the real parser + the certificate document as a composite : specs_composite.go
 
 // excluded lists the types with JSON methods that are NOT checked, with the reason.
 var excluded = map[string]string{
@@ -46,5 +47,6 @@ func buildSpecs(tier string) []*spec {
 	out = append(out, nameSpecs(tier)...)
 	out = append(out, ctSpecs(tier)...)
 	out = append(out, tlsSpecs(tier)...)
+	out = append(out, compositeSpecs(tier)...)
 	return out
 }
